@@ -293,6 +293,7 @@ func (c *w1Client) deadExit(ctx context.Context, kind int) (*rpc.Response, error
 	case w1KindKeepAlive, w1KindTest:
 		runtime.Goexit()
 	case w1KindHistoric:
+		c.inst.histExits.Add(1)
 		agent.VerifW1ExitHistoricSender(c.inst.ag, 0)
 	}
 	if err := ctx.Err(); err != nil {
